@@ -219,6 +219,39 @@ fn exec(disk: bool, template: &std::path::Path, variant: &str, reference: &BTree
             out.violations.push(("scheduler-fatal".into(), t.clone()));
         }
     }
+    // what the running instance reports as status is what it has stored
+    // (overlapping status updates of one CA must not undo each other in the
+    // instance's memory): compared with a fresh instance on a copy, before
+    // any further exchange rewrites the status
+    if disk {
+        let live = crate::checks::c19::status_json_full(&w);
+        let r = crate::checks::c04::what_if(&mut w, move |_w2| {
+            match World::reopen(cfg(true)) {
+                Err(e) => vec![("machinery".to_string(), format!("status reload: {e}"))],
+                Ok(fresh) => {
+                    let stored = crate::checks::c19::status_json_full(&fresh);
+                    if stored != live {
+                        let mut diff = String::new();
+                        for (a, b) in live.lines().zip(stored.lines()) {
+                            if a != b {
+                                let i = a.bytes().zip(b.bytes()).position(|(x, y)| x != y).unwrap_or(0);
+                                let lo = i.saturating_sub(100);
+                                diff = format!("{}: running ...{} | stored ...{}", a.split(':').next().unwrap_or(""), a.chars().skip(lo).take(220).collect::<String>(), b.chars().skip(lo).take(220).collect::<String>());
+                                break;
+                            }
+                        }
+                        vec![("status-live-differs-from-stored".to_string(), format!("right after the concurrent calls the status the running instance reports differs from what it has stored: {diff}"))]
+                    } else {
+                        vec![]
+                    }
+                }
+            }
+        });
+        match r {
+            Ok(x) => out.violations.extend(x),
+            Err(e) => out.violations.push(("machinery".into(), e)),
+        }
+    }
     match final_state(&mut w) {
         Err(e) => out.violations.push(("final-state".into(), e)),
         Ok(v) => {
